@@ -17,6 +17,12 @@ Parts (all on every run):
      distribution in every phase (re-meshing, thresholds, dissolution index; _growthRate stubbed by an arbitrary
      per-phase function), followed by the real getDt: per-phase state by phase NAME across listings and against
      the same phase updated alone (the update is `map` of a per-phase function)
+  C3 the REAL PrecipitateModel.setup() (base setup, _setupAspectRatio, tables, first nucleation / growth evaluation) on
+     2-3 phase models whose phases differ in shape, aspect ratio (constant / function of R / computed from a
+     StrainEnergy), site type, volume, interfacial energy, grid; thermodynamics stubbed by an arbitrary per-phase
+     function: per-phase state AND the per-phase functions evaluated on a radius grid (aspectRatio, eqRadiusFactor,
+     kineticFactor, thermoFactor, particleGibbs, strain energy) by phase NAME across listings and against the same
+     phase set up alone; getDt after setup
   D  MONITORED (oracle only): pycalphad + floating point — paired ternary Ni-Cr-Al evaluations with the
      elements listed NI,AL,CR / NI,CR,AL; a short paired ternary diffusion run; a paired ternary KWN run;
      paired two-phase Al-Mg-Si KWN runs (both phase orders; from nucleation and from loaded size distributions): same
@@ -30,7 +36,7 @@ from vlib import Result, enc_list, enc_ilist, enc_bool, f2b, Toks, close
 
 PROP = 'C11'
 META = {
-    'level_text': 'Lean 4 theorems (any number of elements / phases): argsort(argsort(k)) inverts argsort(k) for vectors and for rows∘columns of a matrix; for an ARBITRARY backend function of alphabetically ordered data the wrapper unsort∘backend∘sort is equivariant under every permutation of the listed solutes (vector results permuted, matrix results P·D·Pᵀ, also with the reference element kept in front); D·∇x commutes with a re-listing of the independent elements; every computeDTfrom… rule, getDt and _calcNucleationSites are invariant under List.Perm of the phase list (min is symmetric, sums over phases commute), the step summary (dt, sites per phase) is equivariant; the per-phase update of a step is a map over the phases, hence equivariant, and getDt after it is invariant (the form with the dissolution-index refresh dedented out of the loop is the proved counter-example); computeDTfromVolume as it WAS is proved order dependent on a concrete witness (repaired in /repo). Models tied to the real wrapper code (run on stubbed arbitrary backends) and to the real Constraints / PrecipitateModel objects by differential correspondence on every run; the property itself is evaluated on the implementation for all listings.',
+    'level_text': 'Lean 4 theorems (any number of elements / phases): argsort(argsort(k)) inverts argsort(k) for vectors and for rows∘columns of a matrix; for an ARBITRARY backend function of alphabetically ordered data the wrapper unsort∘backend∘sort is equivariant under every permutation of the listed solutes (vector results permuted, matrix results P·D·Pᵀ, also with the reference element kept in front); D·∇x commutes with a re-listing of the independent elements; every computeDTfrom… rule, getDt and _calcNucleationSites are invariant under List.Perm of the phase list (min is symmetric, sums over phases commute), the step summary (dt, sites per phase) is equivariant; the per-phase set-up (setup / _setupAspectRatio) and the per-phase update of a step are maps over the phases, hence equivariant (the late-binding closure form of the set-up is a proved counter-example), and getDt after it is invariant (the form with the dissolution-index refresh dedented out of the loop is the proved counter-example); computeDTfromVolume as it WAS is proved order dependent on a concrete witness (repaired in /repo). Models tied to the real wrapper code (run on stubbed arbitrary backends) and to the real Constraints / PrecipitateModel objects by differential correspondence on every run; the property itself is evaluated on the implementation for all listings.',
     'level_note': 'MONITORED only (oracle, no proof): everything that involves pycalphad and IEEE arithmetic — that the real backend (equilibrium solver, mobility models, linear algebra) is a function of the alphabetically ordered data only (paired NI,AL,CR / NI,CR,AL evaluations to rtol 1e-6), the ternary diffusion run, the ternary and two-phase KWN runs (time grid rtol 1e-6, histories rtol 2e-3: solver noise of 1e-9 in the driving force is amplified by exp(-G*/kT) in the nucleation rate). Proved statements are in exact field arithmetic: floating-point sums over phases may differ in the last ulp between listings (compared to rtol 1e-12). The whole KWN step is modelled as far as getDt and the nucleation-site competition go; the per-phase PBM update, mass balance and growth rate are per-phase or order-free sums covered by C01/C02/C07 and by the paired runs. np.argsort is modelled for DISTINCT keys (element names are distinct). Trusted: Lean kernel + Mathlib, axioms propext/Classical.choice/Quot.sound; hand models equal the Python code as far as this run compared them.',
     'technique': 'Lean 4 proof (List.Perm / sorted lists, ordered fields) + model/implementation differential correspondence with stubbed backends + paired-run oracle',
     'design_ref': 'DESIGN.md section 6, C11',
@@ -1466,7 +1472,7 @@ def noise_limited_step(m, i):
     return False, None
 
 
-def part_kwn_multiphase(ctx, res, steps, three=False, cached=False, loaded=False, seed=None):
+def part_kwn_multiphase(ctx, res, steps, three=False, cached=False, loaded=False, needle=False, seed=None):
     """paired runs with the phases listed in every order.  cached=False: thermodynamics without warm-start caches
     (setThermodynamics(removeCache=True)): the backend is a deterministic function of (x, T, phase), the runs must
     agree to rounding.  cached=True: kawin's default; the equilibrium solver is warm-started from the previous call,
@@ -1480,6 +1486,8 @@ def part_kwn_multiphase(ctx, res, steps, three=False, cached=False, loaded=False
     gamma = {'MGSI_B_P': 0.18, 'MG5SI6_B_DP': 0.084, 'B_PRIME_L': 0.18}
     r = random.Random(ctx.rng.getrandbits(48) if seed is None else seed)
     phs = allph if three else r.choice([allph[:2], allph[:2], [allph[0], allph[2]], allph[1:]])
+    if needle:      # a needle-shaped phase whose aspect ratio is computed from the elastic energy, next to a spherical one
+        phs = ['MG5SI6_B_DP', 'MGSI_B_P']
     T = r.uniform(230, 270) + 273.15
     x0 = [r.uniform(0.006, 0.009), r.uniform(0.005, 0.007)]
     sites = {p: r.choice(['dislocations', 'bulk']) for p in phs}
@@ -1498,6 +1506,11 @@ def part_kwn_multiphase(ctx, res, steps, three=False, cached=False, loaded=False
             m.setInterfacialEnergy(gamma[p], phase=p)
             m.setVolumeBeta(1e-5, VolumeParameter.MOLAR_VOLUME, 4, phase=p)
             m.setNucleationSite(sites[p], phase=p)
+        if needle:
+            m.setPBMParameters(cMin=1e-10, cMax=3e-9, bins=20, minBins=14, maxBins=28)
+            pp = m.precipitateParameters[m.phaseIndex('MG5SI6_B_DP')]
+            pp.strainEnergy.setElasticConstants(108e9, 61.3e9, 28.5e9); pp.strainEnergy.setEigenstrain([0.035, 0.035, 0.002])
+            pp.shapeFactor.setPrecipitateShape('needle'); pp.calculateAspectRatio = True
         m.setThermodynamics(_TH[key], removeCache=not cached)
         m.constraints.dtScale = 0.1
         return m
@@ -1529,7 +1542,7 @@ def part_kwn_multiphase(ctx, res, steps, three=False, cached=False, loaded=False
                     m.PBM[m.phaseIndex(p)].LoadDistributionFunction(lognormal(*psd0[p]))
             kwnruns.run(m, 3600 * 50, max_steps=steps)
             runs.append((o, m))
-    mode = ('cached' if cached else 'fresh') + ('-loaded' if loaded else '')
+    mode = ('cached' if cached else 'fresh') + ('-loaded' if loaded else '') + ('-needle' if needle else '')
     desc = dict(psd0=psd0 if loaded else None, part='kwn-multiphase', mode=mode, phases=phs, T=T, x0=x0, sites=sites, steps=steps)
     base = runs[0][1]
     active = int(np.sum(np.max(base.pData.nucRate, axis=0) > 0))
@@ -1547,6 +1560,12 @@ def part_kwn_multiphase(ctx, res, steps, three=False, cached=False, loaded=False
         d2 = dict(desc, listing=[phs[i] for i in o])
         if not cached:
             compare_runs(res, d2, base, m, perm, 'phase-order:run', rt_time=1e-6, rt_hist=1e-4)
+            if needle:
+                for j in range(len(phs)):
+                    fa = base.precipitateParameters[j].shapeFactor.aspectRatio(RGRID) * np.ones(len(RGRID))
+                    fb = m.precipitateParameters[perm[j]].shapeFactor.aspectRatio(RGRID) * np.ones(len(RGRID))
+                    if rel(fa, fb) > 1e-6 or rel(base.pData.ARavg[:base.pData.n + 1, j], m.pData.ARavg[:m.pData.n + 1, perm[j]]) > 1e-4:
+                        res.violate('phase-order:run:aspect-ratio', 'paired runs: aspect ratio function / ARavg history of phase %s differ between listings' % phs[j], d2, fb.tolist(), fa.tolist())
             for j in range(len(phs)):
                 A, B = base.PBM[j], m.PBM[perm[j]]
                 if A.PSD.shape != B.PSD.shape or rel(A.PSDbounds, B.PSDbounds) > 1e-9 or np.max(np.abs(A.PSD - B.PSD)) > 1e-4 * max(np.max(np.abs(A.PSD)), 1.0) \
@@ -1621,7 +1640,7 @@ def corr(ctx, oracle_only=False, scale=1):
     res.rule = ('A: random distinct keys (element names from a pool of 25 symbols incl. common prefixes C/CO/CR/CU, ints, doubles), 1-12 keys; '
                 'B: 3-6 random element names, random compositions, a random non-identity re-listing of the solutes, real wrapper code on a hash-seeded stub backend; '
                 'non-trivial = the re-listing is not an involution (sortIndices != unsortIndices); '
-                'B2: the same element lists with profiles / boundary conditions given by element name, 4-7 nodes, 5 homogenization functions; non-trivial = sorting permutation of the full element list is not an involution; C2: 2-4 phases with log-normal / tail-full / small / empty distributions, reversed + rotated + random listings; non-trivial = some phase gets a dissolution index > 0; C: 1-4 phases x 5 site types x parent phases x PSD/growth/nucleation-rate/Rcrit regimes x n=0/n>0 x isothermal or not, all (<= 6) listings; '
+                'B2: the same element lists with profiles / boundary conditions given by element name, 4-7 nodes, 5 homogenization functions; non-trivial = sorting permutation of the full element list is not an involution; C3: 2-3 phases, 4 shapes x constant / R-dependent / computed aspect ratio x 5 site types, first / reversed / rotated listings + each phase alone; non-trivial = a phase with computed aspect ratio in a multi-phase model; C2: 2-4 phases with log-normal / tail-full / small / empty distributions, reversed + rotated + random listings; non-trivial = some phase gets a dissolution index > 0; C: 1-4 phases x 5 site types x parent phases x PSD/growth/nucleation-rate/Rcrit regimes x n=0/n>0 x isothermal or not, all (<= 6) listings; '
                 'non-trivial = >= 2 phases and at least one rule below dtMax; D: paired real evaluations / runs; distinct = case seed')
     use_model = bool(ctx.driver_ok) and not oracle_only
     t0 = time.time()
@@ -1645,6 +1664,7 @@ def corr(ctx, oracle_only=False, scale=1):
         run_part(ctx, res, 'kwn-multiphase', steps=80, three=True)
         run_part(ctx, res, 'kwn-multiphase', steps=60, three=True, loaded=True)
         run_part(ctx, res, 'kwn-multiphase', steps=100, loaded=True)
+        run_part(ctx, res, 'kwn-multiphase', steps=40, needle=True)
         run_part(ctx, res, 'kwn-multiphase', steps=250, three=True, cached=True)
     t4 = time.time()
     run_part(ctx, res, 'kwn-ternary', steps=ctx.n(25, 200))
